@@ -15,7 +15,7 @@ PID = 'C02'
 
 LEAVES_FULL = [
     {'ret': ['ok']}, {'ret': ['fail']}, {'ret': ['fail_subtest']}, {'ret': ['stop']}, {'ret': ['raise']},
-    {'ret': ['skip']}, {'ret': ['ok'], 'diag': ['A']}, {'ret': ['ok'], 'diag': ['FB']},
+    {'ret': ['skip']}, {'ret': ['ok'], 'diag': ['A']}, {'ret': ['ok'], 'diag': ['FB']}, {'ret': ['ok'], 'diag': ['iA']},
 ]
 LEAVES_SMALL = [{'ret': ['ok']}, {'ret': ['fail']}, {'ret': ['fail_subtest']}, {'ret': ['stop']}]
 LEAVES_TINY = [{'ret': ['ok']}, {'ret': ['fail_subtest']}, {'ret': ['raise']}]
@@ -140,8 +140,31 @@ def _work(item):
   return n, viols, sorted(outcomes), sample
 
 
+def _nested_work(item):
+  """Groups (with checkpoints in their setup) nested inside a teardown: excluded from the exact comparison (the
+  document contradicts itself there), judged by C03's trace predicate instead: a sequence stops at its first terminal
+  node -- also when that node is a checkpoint and also inside a teardown."""
+  from vf.harness import c03  # pylint: disable=g-import-not-at-top
+  tier, start, step = item
+  n, viols = 0, []
+  for i, (label, spec) in enumerate(c03.templates(tier)):
+    if not label.startswith('ckpt') or i % step != start:
+      continue
+    n += 1
+    obs = progs.run_spec(spec)
+    for kind, what in c03.check_groups(spec, obs):
+      viols.append(('nested:%s:%s' % (kind, skeleton(spec)), 'program %s: %s' % (json.dumps(spec), what), {'nested_spec': spec}))
+  return n, viols
+
+
 def run(tier):
   rep = common.Report(PID, tier, 'model_checking')
+  nres = common.pmap(_nested_work, [(tier, s, 16) for s in range(16)], chunksize=1)
+  for r in nres:
+    rep.merge_violations(r[1])
+  nn = sum(r[0] for r in nres)
+  rep.add_part('checkpoint-in-setup (teardown-nested, trace predicate)', states=nn, transitions=nn, traces_validated_against_impl=nn,
+               evaluations=nn, exhaustive=True, samples=[{'templates': 'ckpt-setup-in-teardown, ckpt-setup'}])
   fams = families(tier)
   step = common.NCPU * 4
   for fi, fam in enumerate(fams):
@@ -170,6 +193,13 @@ def run(tier):
 
 
 def replay(art):
+  if 'nested_spec' in art['replay']:
+    from vf.harness import c03  # pylint: disable=g-import-not-at-top
+    spec = art['replay']['nested_spec']
+    bad = c03.check_groups(spec, progs.run_spec(spec))
+    for b in bad:
+      print('VIOLATED', b)
+    return 1 if bad else 0
   spec = art['replay']['spec']
   diffs, got = compare(spec)
   print('program', skeleton(spec))
